@@ -80,3 +80,26 @@ Definition libor_zz (ps : list (Q * Q * Q)) (pinf : Q) (g : grid) : list (list Q
 Definition step_sde_coupled (a_st : Q -> list Q -> list Q -> smat) (b : Q -> list Q -> list Q) (ps : list (Q * Q * Q))
     (xs : list Q) (o : nat) (cf cc : Q) (mu_h mu_2h : Q) (es : list devent) (x0 : list Q) :=
   option_map (fun cs => ceuler_st a_st b [mu_h] [mu_2h] cs x0 x0) (driver_csteps amid (chain_mass ps xs) xs o cf cc es).
+
+(* ---- wave 8 (audit5a D1, finding F-C03-2): the time grid of the COARSE component.
+   simulate_one_path_with_coupling advances both components on mc_path.jump_times of the coupled driver path = the time grid of the level-l
+   FINE driver (all fine jump times, cap epsilon_l, maturity).  The level-(l-1) process (MarkovChainSDE.simulate_one_path on the grid of level
+   l-1) advances on ITS OWN grid: its own jump times, its cap epsilon_(l-1), the maturity.  Seen from the coupled path: a step at whose end
+   the coarse driver does not jump (a fine jump coupled to the origin, or a time inserted by the level-l cap) is NOT a point of that grid; the
+   step is merged into the following one (dt, Brownian increment and jump add up).  own_grid models this for a path whose merged steps stay
+   below the cap epsilon_(l-1) (finite-variation drivers: epsilon = h^0 = 1 >= maturity at every level, so this is the exact own grid). *)
+Definition no_jump (s : step) : bool := forallb (fun x => Qeq_bool x 0) (s_dL s).
+Definition merge_step (p s : step) : step :=
+  {| s_t := s_t p; s_dt := s_dt p + s_dt s; s_dL := vadd (s_dL p) (s_dL s); s_dW := vadd (s_dW p) (s_dW s) |}.
+Fixpoint own_grid (steps : list step) : list step :=
+  match steps with
+  | [] => []
+  | s :: r => match own_grid r with
+              | [] => [s]                                   (* the last step ends at the maturity: always a grid point *)
+              | s' :: r' => if no_jump s then merge_step s s' :: r' else s :: s' :: r'
+              end
+  end.
+(* x0 + drift[-1] + jump[-1] + diffusion[-1] of a StochasticSDEPath given by its per-step terms (zi when the loop ends) *)
+Definition end_value (x0 : list Q) (tms : list (list Q * list Q * list Q)) : list Q := fold_left (fun z tm => next_of tm z) tms x0.
+(* the one-step increment of the k-th component of the driver as the Euler step of a = diag(x) sees it: mu dt + dL + dW *)
+Definition dY (k : nat) (mu : list Q) (s : step) : Q := qn k mu * s_dt s + qn k (s_dL s) + qn k (s_dW s).
